@@ -94,6 +94,9 @@ def meaning(fn, x, pos, kw):
         return _meaning(fn, x, pos, kw)
     except Unbound:
         return None
+    except OverflowError:
+        # an integer beyond the double range meets a float: outside the documented domain (App. D)
+        return None
 
 
 def _meaning(fn, x, pos, kw):
